@@ -230,6 +230,11 @@ class Evaluator:
                         return (bv[0], bv[1], bv[2] + self.ev(f.node(inner["idx"])))
                 if getattr(self, "heap_mode", False):
                     return self.lkey(n["c"][0])
+                if inner is not None and (inner["k"] in ("CallExpr", "CXXMemberCallExpr", "CXXOperatorCallExpr") or
+                                          (inner["k"] == "DeclRefExpr" and (self.tinfo(inner.get("ct")) or {}).get("k") in ("record", "ref", "other"))):
+                    # the address of an object designated by a reference (call result, reference parameter) or of a
+                    # record variable: objects are modelled by their identity
+                    return self.ev(n["c"][0])
             v = self.ev(n["c"][0])
             if op == "!":
                 return 0 if v else 1
